@@ -630,6 +630,19 @@ fn sub_ffi_types(c: &mut Case) -> CaseResult {
     c.class(format!("type:{}", ty.family()));
     c.describe(json!({"type": ty.arrow().to_string(), "len": n}));
     let data = arr.to_data();
+    // release accounting: one retained clone of every buffer reachable from the exported data (children and dictionary
+    // values included); when every array handle is gone, nothing but these clones may keep an allocation alive
+    let mut held: Vec<Buffer> = vec![];
+    fn collect(d: &arrow_data::ArrayData, out: &mut Vec<Buffer>) {
+        out.extend(d.buffers().iter().cloned());
+        if let Some(n) = d.nulls() {
+            out.push(n.buffer().clone());
+        }
+        for c in d.child_data() {
+            collect(c, out);
+        }
+    }
+    collect(&data, &mut held);
     let exported = no_panic("to_ffi", || to_ffi(&data))?;
     let (fa, fs) = match exported {
         Ok(x) => x,
@@ -646,6 +659,7 @@ fn sub_ffi_types(c: &mut Case) -> CaseResult {
         drop(data);
         None
     } else {
+        drop(data);
         Some(arr)
     };
     let imported = no_panic("from_ffi", || unsafe { from_ffi(fa, &fs) })?;
@@ -678,10 +692,23 @@ fn sub_ffi_types(c: &mut Case) -> CaseResult {
     drop(original);
     let again = no_panic("extract-after-drop", || extract(back.as_ref()))?;
     ensure!(first_diff(&again, &col).is_none(), format!("ffi:use-after-free:{}", ty.family()), "imported array changed after the exporter dropped its handles");
+    // released exactly once: after the last handle is dropped only the retained clones own the exporter's allocations
+    drop(again);
+    drop(got);
+    drop(back);
+    let mut per_alloc: std::collections::HashMap<usize, usize> = std::collections::HashMap::new();
+    for b in &held {
+        *per_alloc.entry(b.data_ptr().as_ptr() as usize).or_default() += 1;
+    }
+    for b in &held {
+        let mine = per_alloc[&(b.data_ptr().as_ptr() as usize)];
+        let sc = b.strong_count();
+        ensure!(sc <= mine, format!("ffi:leak:{}", ty.family()), "an allocation of {} bytes of the exported array is still owned by {} handle(s) besides the {} retained clone(s) after exporter, importer and FFI structs were dropped (never released)", b.len(), sc - mine, mine);
+    }
     if n >= 3 && col.iter().any(|v| v.is_null()) {
         c.nontrivial();
     }
-    c.evals(2);
+    c.evals(3);
     Ok(())
 }
 
